@@ -288,6 +288,34 @@ def c14(rng):
                     None, None, None, not acc))
     pf = perturb_fields(rng, sf)
     out.append(('delegate:covered-field-changed', [bs(T.make_delegate_key_witness(SEEDS[d1], cert, sf)), bs(lock)], dict(pf, timestamp=t), cfg, False))
+    # a Certificate OBJECT has a history: packed once (a witness was made from it), then a field is edited in place — with or without the
+    # root signing again — and it is packed again: the second packing must describe the object as it is now
+    cobj = T.make_delegate_key_cert(SEEDS[root], PUBS[d1], now - 10, now + 10)
+    if isinstance(cobj, _RealT.Certificate):
+        first = cobj.pack()
+        out.append(('delegate: certificate object, first use', [bs(T.make_delegate_key_witness(SEEDS[d1], cobj, sf)), bs(lock)], cache, cfg, True))
+        which = rng.choice(['end_ts', 'begin_ts', 'can_further_delegate', 'delegate_pubkey'])
+        if which == 'end_ts': cobj.end_ts = now + 100000
+        elif which == 'begin_ts': cobj.begin_ts = now - 100000
+        elif which == 'can_further_delegate': cobj.can_further_delegate = not cobj.can_further_delegate
+        else: cobj.delegate_pubkey = PUBS[d2]
+        try:
+            second = cobj.pack()
+            rt_ = _RealT.Certificate.unpack(second)
+            out.append(('delegate: certificate object edited in place (%s) packs to its present fields' % which, None, None, None,
+                        second != first and getattr(rt_, which) == getattr(cobj, which)))
+            signer_ = SEEDS[d2] if which == 'delegate_pubkey' else SEEDS[d1]
+            out.append(('delegate: certificate object edited in place (%s), root signature kept: refused' % which,
+                        [bs(T.make_delegate_key_witness(signer_, cobj, sf)), bs(lock)], cache, cfg, False))
+        except BaseException as e:
+            out.append(('delegate: packing an edited certificate object raised %s' % type(e).__name__, None, None, None, False))
+        # narrowed by the root (signed again) to a window that ends now: refused at t = now
+        c2_ = T.make_delegate_key_cert(SEEDS[root], PUBS[d1], now - 10, now + 10)
+        c2_.pack()
+        c3_ = T.make_delegate_key_cert(SEEDS[root], PUBS[d1], now - 10, now)
+        c2_.end_ts, c2_.signature = c3_.end_ts, c3_.signature
+        out.append(('delegate: certificate object narrowed to end == t and signed again by the root: refused',
+                    [bs(T.make_delegate_key_witness(SEEDS[d1], c2_, sf)), bs(lock)], cache, cfg, False))
     # the slack threshold given per call: run_script(witness + lock, cache, additional_flags={'ts_threshold': X}) — the chain lock checks
     # its windows inside a definition it calls, the single lock at top level; both must apply X
     for thr_, dt_ in ((10, 30), (300, 150), (0, 500), (60, 30)):
@@ -757,6 +785,17 @@ def c05(rng):
         S2 = Script.from_src(leaf_src(8, 'true'))
         out.append((nm + ':scriptspend-other-script', [bs(T.make_taproot_witness_scriptspend(P, S2)), bs(lock)], sf, cfg, False, None, ''))
         out.append((nm + ':scriptspend-other-key', [bs(T.make_taproot_witness_scriptspend(PUBS[b], S)), bs(lock)], sf, cfg, False, None, ''))
+        # a witness may write bytes-keyed cache entries before the lock runs: whatever it plants there (the root, under keys derived from
+        # the pair it is about to present), a pair that does not recompute to the root stays refused
+        if native or rng.random() < 0.5:
+            t_ = F.clamp_scalar(hashlib.sha256(P + hashlib.sha256(S.bytes).digest()).digest())
+            rt_ = ed_add(P, nb.crypto_scalarmult_ed25519_base_noclamp(t_))
+            hs2 = hashlib.sha256(S2.bytes).digest()
+            kk = rng.choice([('sha256(key || sha256(script))', hashlib.sha256(PUBS[b] + hs2).digest()), ('sha256(script)', hs2), ('the key', PUBS[b]),
+                             ('the root', rt_), ('sha256(key || script)', hashlib.sha256(PUBS[b] + S2.bytes).digest())])
+            plant = gpush(rt_) + bytes([F.opcodes_inverse['OP_WRITE_CACHE'][0], len(kk[1])]) + kk[1] + b'\x01'
+            out.append((nm + ':scriptspend of an uncommitted pair after the witness planted the root in the cache under ' + kk[0],
+                        [plant + bs(T.make_taproot_witness_scriptspend(PUBS[b], S2)), bs(lock)], sf, cfg, False, None, ''))
         # a lock whose root differs in one bit (the x-sign bit 255 included) is not unlocked by the honest pair
         if native:
             lb = bytearray(bs(lock)); bit = rng.choice([255, 255, rng.randrange(256)])
